@@ -55,8 +55,12 @@ def gen_op(rng, misc_ok=True, heavy=True):
         return "info %d %d %s %s" % (rng.choice([0, 1, TPU, TNUMA]), rng.randint(0, 2), rnd_name(rng), rnd_name(rng))
     if r < 0.94:
         return "tinfo %s %s" % (rnd_name(rng), rnd_name(rng))
-    if r < 0.97:
+    if r < 0.955:
         return "refresh"
+    if r < 0.985:
+        # emptied-but-allocated arrays and their re-filling
+        return rng.choice(["infoclr %d %d" % (rng.choice([0, 1, TPU, TNUMA]), rng.randint(0, 2)), "tinfoclr", "kinfoclr %d" % rng.randint(0, 1),
+                           "kinfo %d %s %s" % (rng.randint(0, 1), rnd_name(rng), rnd_name(rng)), "udclr %d %d" % (rng.choice([0, TPU, TNUMA]), rng.randint(0, 3))])
     return "ud %d %d" % (rng.choice([0, TPU, TNUMA]), rng.randint(0, 3))
 
 
@@ -164,6 +168,59 @@ def twin_boundary_cases():
         ("t:gap-by-failed-add", [two], ["pre distfail", "pre distadd 1003 4 6 0 2", "dup"] + post + d),
         ("t:all-removed-then-add", [two], ["pre distadd 1014 2 5 0 1", "pre distrm", "dup", "both distadd 1004 4 5 0 3", "both disthandle hwv3 0", "both disthandle hwv3 3"] + d),
     ]
+
+
+# ---- "allocated but empty" states of every growable array before the dup, re-filled on one side afterwards
+def gen_empty_history(rng):
+    fills = {
+        "objinfo": (["pre info 0 0 a b", "pre info 0 0 c d", "pre infoclr 0 0"], ["info 0 0 e f", "infoclr 0 0"]),
+        "puinfo": (["pre info %d 1 a b" % TPU, "pre infoclr %d 1" % TPU], ["info %d 1 e f" % TPU]),
+        "tinfo": (["pre tinfo a b", "pre tinfoclr"], ["tinfo e f", "tinfoclr"]),
+        "kinfo": (["pre kobj %d 0 1 k a" % TCORE, "pre kobj %d 1 2 k b" % TCORE, "pre kinfoclr 0"], ["kinfo 0 e f", "kinfo 1 g h", "kinfoclr 1"]),
+        "kinfo-all": (["pre kobj %d 0 1 k a" % TPU, "pre kinfoclr 0"], ["kinfo 0 e f"]),
+        "dist": (["pre distadd %d 2 5 0 1" % TPU, "pre distrm"], ["distadd %d 2 6 0 2" % TPU, "distrm"]),
+        "memattr-targets": (["pre mreg foo 1", "pre mset 8 1 - 20", "pre robj %d 0 24" % TNUMA, "pre refresh"], ["mset 8 0 - 5"]),
+        "memattr-initiators": (["pre mseto 2 1 %d 1 300" % TPACK, "pre robj %d 0 0" % TPACK, "pre refresh"], ["mseto 2 0 %d 0 7" % TPACK]),
+        "userdata": (["pre ud 0 0", "pre ud %d 1" % TPU, "pre udclr 0 0"], ["ud 0 0", "udclr %d 1" % TPU]),
+    }
+    keys = rng.sample(sorted(fills), rng.randint(1, 4))
+    # restricts last: they change the indexes the other ops rely on
+    keys.sort(key=lambda k: k.startswith("memattr"))
+    lines = []
+    post = []
+    for k in keys:
+        lines += fills[k][0]
+        post += fills[k][1]
+    lines.append("dup")
+    rng.shuffle(post)
+    for op in post[:rng.randint(1, len(post))]:
+        if rng.random() < 0.25 and not op.startswith(("distadd", "mset", "mseto")) or op.startswith(("distadd",)) and rng.random() < 0.3:
+            lines.append("both " + op)
+        else:
+            lines.append("mut %s %s" % (rng.choice("AB"), op))
+    first = rng.choice("AB")
+    lines += ["destroy " + first, "destroy " + ("B" if first == "A" else "A")]
+    return lines
+
+
+def empty_boundary_cases():
+    two = "src synthetic pack:2 [numa(memory=1024)] core:2 pu:2"
+    res = []
+    for order in ("AB", "BA"):
+        d = ["destroy " + order[0], "destroy " + order[1]]
+        for side in "AB":
+            res += [
+                ("e:cpukind-infos-cleared:%s%s" % (side, order), [two], ["pre kobj 1003 0 1 k a", "pre kobj 1003 1 2 k b", "pre kinfoclr 0", "dup", "mut %s kinfo 0 e f" % side] + d),
+                ("e:obj-infos-cleared:%s%s" % (side, order), [two], ["pre info 0 0 a b", "pre info 1004 1 c d", "pre infoclr 0 0", "pre infoclr 1004 1", "dup", "mut %s info 0 0 e f" % side, "mut %s info 1004 1 g h" % side] + d),
+                ("e:topology-infos-cleared:%s%s" % (side, order), [two], ["pre tinfo a b", "pre tinfoclr", "dup", "mut %s tinfo e f" % side] + d),
+                ("e:distances-all-removed:%s%s" % (side, order), [two], ["pre distadd 1004 4 5 0 1", "pre distrm", "dup", "mut %s distadd 1004 4 6 0 2" % side] + d),
+                ("e:userdata-unset:%s%s" % (side, order), [two], ["pre ud 0 0", "pre udclr 0 0", "dup", "mut %s ud 0 0" % side] + d),
+            ]
+        res.append(("e:cpukind-infos-cleared-destroy-only:" + order, [two], ["pre kobj 1003 0 1 k a", "pre kinfoclr 0", "dup"] + d))
+        res.append(("e:everything-emptied:" + order, [two], ["pre info 0 0 a b", "pre infoclr 0 0", "pre tinfo a b", "pre tinfoclr", "pre kobj 1003 0 1 k a", "pre kinfoclr 0",
+                                                           "pre distadd 1004 4 5 0 1", "pre distrm", "pre mreg foo 1", "pre mset 8 1 - 20", "pre robj 1014 0 24", "pre refresh", "dup",
+                                                           "both info 0 0 e f", "both tinfo e f", "both kinfo 0 e f"] + d))
+    return res
 
 
 # enumerated boundary scenarios: arrays that become empty, stale caches, every kind of attachment present
